@@ -55,7 +55,37 @@ fn concurrent(f: Family) -> bool {
 
 // ------------------------------------------------------------------ per-event hooks
 
+/// A poll of the root after its final result (the caller's breach of the Future / Stream contract; the
+/// combinators answer None again or panic). The only rules that still apply: a combinator that has produced its
+/// final result has stopped polling its children (C03), and wait_until never polls its deadline again (C19).
+/// The one legitimate child poll is the inner stream of a stream `wait_until`, which is a transparent adapter.
+fn on_afterlife_poll(w: &mut World, id: NodeId) {
+    let parent = w.node(id).parent;
+    if parent == NO_NODE {
+        return;
+    }
+    let pfam = w.node(parent).fam;
+    let kids = w.node(parent).children.clone();
+    if matches!(pfam, Family::WaitUntilF | Family::WaitUntilS) {
+        if id != kids[0] {
+            w.flag("c19.deadline_again", || format!("wait_until polled its deadline n{id} again when it was polled after the inner had ended"));
+        } else if pfam == Family::WaitUntilS {
+            return;
+        }
+    }
+    let last = w.node(id).last;
+    w.flag("c03.after_final", || {
+        format!(
+            "child n{id} (last result {}) was polled although the combinator had already produced its final result",
+            last.map(|r| r.name()).unwrap_or("none")
+        )
+    });
+}
+
 pub fn on_poll_begin(w: &mut World, id: NodeId) {
+    if w.afterlife {
+        return on_afterlife_poll(w, id);
+    }
     let n = w.node(id);
     let parent = n.parent;
     if n.dropped > 0 {
@@ -128,11 +158,24 @@ pub fn on_poll_begin(w: &mut World, id: NodeId) {
                 }
             }
             Family::WaitUntilF | Family::WaitUntilS => {
-                let kids = &w.node(parent).children;
+                let kids = w.node(parent).children.clone();
                 if kids.len() == 2 && id == kids[0] && !w.node(kids[1]).done {
                     w.flag("c19.early_inner", || {
                         "wait_until polled the inner future/stream before the deadline resolved".to_string()
                     });
+                }
+                // chained form x.wait_until(d1).wait_until(d2): kids = [x, d1, d2]
+                if kids.len() == 3 {
+                    if id == kids[1] && !w.node(kids[2]).done {
+                        w.flag("c19.early_inner", || {
+                            "x.wait_until(d1).wait_until(d2): d1 (part of the inner future/stream) was polled before d2 resolved".to_string()
+                        });
+                    }
+                    if id == kids[0] && !(w.node(kids[1]).done && w.node(kids[2]).done) {
+                        w.flag("c19.early_inner", || {
+                            "x.wait_until(d1).wait_until(d2): x was polled before both deadlines resolved".to_string()
+                        });
+                    }
                 }
             }
             _ => {}
@@ -142,6 +185,9 @@ pub fn on_poll_begin(w: &mut World, id: NodeId) {
 
 
 pub fn on_poll_end(w: &mut World, id: NodeId, res: Res, val: Option<u32>) {
+    if w.afterlife {
+        return;
+    }
     let parent = w.node(id).parent;
     if parent == ROOT && w.node(ROOT).fam == Family::CoStream {
         crate::costream::on_poll_end(w, id, res, val);
@@ -477,6 +523,35 @@ fn lr_check(w: &mut World, node: NodeId, out: &Out) {
                 }
             }
         }
+        Family::WaitUntilF | Family::WaitUntilS if kids.len() == 3 => {
+            // chained form: kids = [x, d1, d2]; stage = first unresolved deadline (outer first)
+            let (inner, d1, d2) = (kids[0], kids[1], kids[2]);
+            let count = |n: NodeId| frame.iter().filter(|f| f.0 == n).count();
+            let (ci, c1, c2) = (count(inner), count(d1), count(d2));
+            if !w.node(d2).done {
+                if ci + c1 > 0 {
+                    w.flag("c19.early_inner", || "the inner wait_until was polled while the outer deadline is pending".into());
+                }
+                if c2 != 1 {
+                    w.flag("c19.lr", || format!("outer deadline polled {c2} times in a poll while pending (expected once)"));
+                }
+                expect(w, "c19.lr", out, Res::Pending, &[], "outer deadline still pending");
+            } else if !w.node(d1).done {
+                if ci > 0 {
+                    w.flag("c19.early_inner", || "x polled while d1 is pending".into());
+                }
+                if c1 != 1 {
+                    w.flag("c19.lr", || format!("d1 polled {c1} times in a poll while pending and the outer deadline resolved (expected once)"));
+                }
+                expect(w, "c19.lr", out, Res::Pending, &[], "d1 still pending");
+            } else if ci != 1 {
+                w.flag("c19.lr", || format!("after both deadlines resolved x must be polled exactly once per poll; polled {ci} times"));
+            } else {
+                let (_, r, v) = *frame.iter().find(|f| f.0 == inner).unwrap();
+                let vals: Vec<u32> = v.into_iter().collect();
+                expect(w, "c19.lr", out, r, &vals, "chained wait_until must behave exactly like x once both deadlines resolved");
+            }
+        }
         Family::WaitUntilF | Family::WaitUntilS => {
             let (inner, deadline) = (kids[0], kids[1]);
             let inner_entries: Vec<_> = frame.iter().filter(|f| f.0 == inner).collect();
@@ -612,6 +687,9 @@ pub fn blocked(w: &World, id: NodeId) -> Result<(), (NodeId, String)> {
         },
         Family::WaitUntilF | Family::WaitUntilS => {
             let all = &w.node(id).children;
+            if all.len() == 3 && !w.node(all[2]).done {
+                return sub(all[2]);
+            }
             let (inner, deadline) = (all[0], all[1]);
             if !w.node(deadline).done {
                 sub(deadline)
